@@ -177,6 +177,12 @@ func (v *FnVC) exec(fr *frame, st *State, ins ssa.Instruction) {
 		if ps, ok := p.(Sc); ok {
 			v.safe(fr, "nil", ins, Not(Eq(ps.T, tZero)))
 		}
+		// declared model invariant "slices of this element type never hold nil": guaranteed at every element store
+		if pv, ok := p.(PtrV); ok && pv.L.Kind == locElem && v.w.Contracts.ElemsNonNil[typeKey(types.Unalias(et))] {
+			if sv, ok := v.scalarizeVal(v.value(fr, x.Val)).(Sc); ok {
+				v.safe(fr, "elemnil", ins, Not(Eq(sv.T, tZero)))
+			}
+		}
 		v.storeThrough(st, p, et, v.value(fr, x.Val))
 	case *ssa.If:
 		c := v.value(fr, x.Cond).(Sc).T
